@@ -1,2 +1,8 @@
 import QlibcModel.Props.C04
-#print axioms Qlibc.Props.C04.placeholder
+#print axioms Qlibc.Props.C04.floor_spec
+#print axioms Qlibc.Props.C04.floor_eq
+#print axioms Qlibc.Props.C04.nearest_terminates
+#print axioms Qlibc.Props.C04.nearest_floor
+#print axioms Qlibc.Props.C04.nearest_history_independent
+#print axioms Qlibc.Props.C04.nearest_epoch
+#print axioms Qlibc.Props.C04.nearest_then_walk
